@@ -231,6 +231,7 @@ class BoostWorld:
             assert r.ok
         elif k == "Enter":
             _, c, amt, adds = op
+            # (the debug VM lets a zero-amount ESDT payment through; the protocol does not: never generated)
             inp["pre_ok"] = active and amt > 0 and (not adds or self.pays_ok(c, adds))
             r = vm.call(A[c], self.farm, "enterFarm", [], [(self.farming, 0, amt)] + pays(adds))
             if r.ok:
@@ -485,7 +486,7 @@ def log_amount(rng, hi=10 ** 24):
 
 
 def gen_cfg(rng):
-    return dict(dsc=rng.choice([10 ** 6, 10 ** 12, 10 ** 12, 10 ** 18]), same=rng.random() < 0.55,
+    return dict(dsc=rng.choice([10 ** 6, 10 ** 12, 10 ** 12, 10 ** 18]), same=rng.random() < 0.65,
                 rate=rng.choice([1000, 10 ** 6, 10 ** 9, 10 ** 18, log_amount(rng, 10 ** 15) + 100]),
                 epoch0=rng.choice([0, 5, 5, 13, 100]), scale=rng.choice([1, 10 ** 3, 10 ** 6, 10 ** 12, 10 ** 18]),
                 late_factors=rng.random() < 0.15)
@@ -494,16 +495,16 @@ def gen_cfg(rng):
 def gen_factors(rng, scale):
     if rng.random() < 0.03:
         return [rng.choice([1, 2]), 0, 0, 1, 1]                     # cE + cF = 0: accepted by the setter
-    return [rng.choice([0, 1, 2, 2, 3, 10, 1000]), rng.choice([0, 1, 3, 3, 7]), rng.choice([0, 1, 2, 2, 5]),
+    return [rng.choice([0, 1, 1, 2, 2, 2, 3, 3, 10, 1000]), rng.choice([0, 1, 3, 3, 7]), rng.choice([0, 1, 2, 2, 5]),
             rng.choice([1, 1, 10, 1000, 10 ** 6]), rng.choice([1, 1, 2, 100, scale, 5 * scale])]
 
 
 def gen_energy(rng, scale):
     cls = rng.random()
     tok = log_amount(rng, 10 ** 9) * rng.choice([1, 1, scale])
-    if cls < 0.5:
-        return tok * rng.randint(30, 1440) + rng.randint(0, tok), tok       # long lock
-    if cls < 0.7:
+    if cls < 0.62:
+        return tok * rng.randint(60, 1440) + rng.randint(0, tok), tok       # long lock
+    if cls < 0.74:
         return tok * rng.randint(1, 30) + rng.choice([0, 1, tok - 1]), tok  # runs out within the window
     if cls < 0.8:
         return rng.choice([1, 5, 9, 999]), rng.choice([0, 1])               # below typical minimum energies
@@ -551,6 +552,19 @@ def gen_user_op(rng, w, c, kind=None, must=None):
     return ["ClaimBoosted", c]
 
 
+def pick_receiver(rng, o, src, cw_after=False):
+    """mostly a user whose recorded claim progress is behind the current week (he still has completed weeks to settle)"""
+    others = [u for u in USERS if u != src]
+    withp = [u for u in others if o["prog"].get(u)]
+    behind = [u for u in withp if cw_after or o["prog"][u][3] < o["week"]]
+    r = rng.random()
+    if behind and r < 0.75:
+        return rng.choice(behind)
+    if withp and r < 0.9:
+        return rng.choice(withp)
+    return rng.choice(others)
+
+
 def gen_op(rng, w):
     o = w.last
     cfg = w.cfg
@@ -571,7 +585,7 @@ def gen_op(rng, w):
             first, second = second, first
         script.append(second)
         for u in USERS:
-            if rng.random() < (0.9 if u <= 2 else 0.6):
+            if rng.random() < (0.95 if u <= 3 else 0.5):
                 en, tok = gen_energy(rng, scale)
                 script.append(["Energy", u, en, tok])
         for u in rng.sample(USERS, rng.choice([2, 3, 3, 4])):
@@ -583,15 +597,30 @@ def gen_op(rng, w):
     if o["state"] != 1 and roll < 0.7:
         return ["SetState", OWNER, 1]
     users_with_pos = [u for u in USERS if o["held"].get(u)]
+    # users with a recorded claim progress (energy) act three times as often
+    weighted = [u for u in users_with_pos for _ in range(3 if o["prog"].get(u) else 1)]
     # ---- time
     if roll < 0.15:
-        weeks = rng.choice([1, 1, 1, 1, 1, 2, 2, 3, 4, 5, 6, 7])
+        weeks = rng.choice([1, 1, 1, 1, 1, 1, 1, 2, 2, 3, 4, 5, 6, 7])
         if rng.random() < 0.15:
             return ["Advance", rng.choice([1, 10, 100]), rng.choice([0, 1, 3, 6])]
-        # a week change is followed by somebody settling, so that pools freeze and progress moves
-        if users_with_pos and rng.random() < 0.8:
-            u = rng.choice(users_with_pos)
-            script.append((lambda uu: (lambda r, ww: gen_user_op(r, ww, uu, r.choice(["ClaimBoosted", "Claim", "ClaimBoosted"]))))(u))
+        # a week change is followed by some users settling, so that pools freeze and progress moves
+        if users_with_pos and rng.random() < 0.85:
+            for u in sorted(set(rng.choice(weighted) for _ in range(rng.choice([1, 2, 3, 3])))):
+                script.append((lambda uu: (lambda r, ww: gen_user_op(r, ww, uu, r.choice(["ClaimBoosted", "Claim", "ClaimBoosted", "Enter", "Exit", "Merge", "Compound"]))))(u))
+        # ... or by a position changing hands in the new week before the receiver has settled the old one
+        if users_with_pos and rng.random() < 0.45:
+            src = rng.choice(users_with_pos)
+            n, v = rng.choice(positions_of(w, src))
+            dst = pick_receiver(rng, o, src, cw_after=True)
+            kinds = ["Compound", "Compound", "Compound", "Claim", "Enter", "Merge", "Exit"] if cfg["same"] else ["Claim", "Claim", "Enter", "Merge", "Exit", "Compound"]
+            pos = 0 if rng.random() < 0.7 else rng.randint(0, len(script))
+            scen = []
+            if rng.random() < 0.5:
+                scen.append(["ClaimBoosted", src])
+            scen.append(["Transfer", n, src, dst, v if rng.random() < 0.7 else rng.randint(1, v)])
+            scen.append((lambda dd, nn, kk: (lambda r, ww: gen_user_op(r, ww, dd, r.choice(kk), must=nn)))(dst, n, kinds))
+            script[pos:pos] = scen
         return ["Advance", rng.choice([1, 10, 100, 1000]), EPOCHS_IN_WEEK * weeks + rng.choice([0, 0, 0, 1, 3])]
     if roll < 0.20:
         u = rng.choice(USERS)
@@ -624,7 +653,7 @@ def gen_op(rng, w):
     if roll < 0.45 and users_with_pos:
         src = rng.choice(users_with_pos)
         n, v = rng.choice(positions_of(w, src))
-        dst = rng.choice([u for u in USERS if u != src])
+        dst = pick_receiver(rng, o, src)
         amt = v if rng.random() < 0.7 else rng.randint(1, v)
         if rng.random() < 0.5:
             # the sender settles first (claims his boosted rewards of the completed weeks)
@@ -648,10 +677,11 @@ def gen_op(rng, w):
         if kind < 0.6 and others:
             n, v = rng.choice(others)
             return ["Exit", c, (n, v)] if (n, v) not in mine else ["ClaimBoosted", c]
-        if kind < 0.8:
-            return ["Enter", c, 0, []]
+        if kind < 0.8 and mine:
+            n, v = rng.choice(mine)
+            return ["Merge", c, [(n, v), (n, 1)]]
         return ["ClaimBoosted", c]
-    c = rng.choice(users_with_pos) if (users_with_pos and rng.random() < 0.85) else rng.choice(USERS)
+    c = rng.choice(weighted) if (weighted and rng.random() < 0.85) else rng.choice(USERS)
     return gen_user_op(rng, w, c)
 
 
